@@ -397,7 +397,8 @@ def execMachine : Machine ExecD where
           | "fallible" => .fallible
           | _ => .plain
         let items := (if letters == "-" then [] else letters.toList).map fun c =>
-          if c == 'o' then Exec.Outcome.ok else if c == 'e' then .err else if c == 's' then .slow else .slowErr
+          -- 'z' = an item failing fast with an error of its own whose type is tokio's `Elapsed`: an error like any other
+          if c == 'o' then Exec.Outcome.ok else if c == 'e' || c == 'z' then .err else if c == 's' then .slow else .slowErr
         some { d with counts := some (Exec.account variant (to == "1") items) }
     | _, _ => none
   tag _ _ := none
